@@ -61,6 +61,13 @@ func runC01(tier string, r *rng) {
 			c01Case(pairSpec{false, false, 1, 1, 5, 60, -hour, off, tv})
 		}
 	}
+	// sub-second time relations to the trusted header (same Unix second, ± 1 ns, ± 400 ms)
+	for _, du := range []int64{-1, 1, -400e6, 400e6, -999999999, 999999999} {
+		for tv := vhdr.VKOk; tv <= vhdr.VKWrap1; tv++ {
+			c01Case(pairSpec{false, false, 1, 1, 5, 6, -hour, -hour + du, tv})
+			c01Case(pairSpec{false, false, 1, 1, 5, 9, -hour + 500e6, -hour + 500e6 + du, tv})
+		}
+	}
 	// random pairs over wider domains
 	n := 2000
 	if tier == "thorough" {
@@ -79,6 +86,17 @@ func runC01(tier string, r *rng) {
 		}
 		p.tt = int64(r.intn(5)-2) * hour
 		p.ut = p.tt + int64(r.intn(5)-2)*10*min
+		if r.chance(1, 4) { // sub-second offsets
+			p.ut = p.tt + int64(r.intn(2000000001)) - 1000000000
+		}
+		if r.chance(1, 2) { // mostly valid pairs: one defect at most
+			p.tz, p.uz, p.uc = false, false, p.tc
+			if r.chance(2, 3) {
+				p.uh = p.th + 1 + uint64(r.intn(3))
+				p.tt = -hour
+				p.ut = p.tt + int64(r.intn(3))*10*min
+			}
+		}
 		c01Case(p)
 	}
 }
@@ -87,16 +105,17 @@ func runC01(tier string, r *rng) {
 
 // header kinds of the sequence alphabet, relative to the rolling predecessor
 const (
-	kGood   = iota // height+1, later time, type-level ok
-	kGap           // height+2
-	kDup           // same height as predecessor
-	kLower         // lower height
-	kZero          // nil header
-	kChain         // other chain id
-	kSoft          // type-level bare soft error
-	kHard          // type-level plain error
-	kPast          // earlier time
-	kFuture        // time beyond now+drift
+	kGood      = iota // height+1, later time, type-level ok
+	kGap              // height+2
+	kDup              // same height as predecessor
+	kLower            // lower height
+	kZero             // nil header
+	kChain            // other chain id
+	kSoft             // type-level bare soft error
+	kHard             // type-level plain error
+	kPast             // earlier time
+	kFuture           // time beyond now+drift
+	kPastSmall        // 0.4 s before the predecessor (still after the trusted header unless first)
 	nKinds
 )
 
@@ -131,6 +150,8 @@ func c02Case(first uint64, kinds []int) {
 			h.T = prevT - 60e9
 		case kFuture:
 			h.T = now + hour
+		case kPastSmall:
+			h.T = prevT - 400e6
 		}
 		us = append(us, h)
 		if h != nil {
@@ -192,8 +213,24 @@ func runC02(tier string, r *rng) {
 	if tier == "thorough" {
 		n = 20000
 	}
+	// long inputs (beyond MaxRangeRequestSize): all good, and one defect far behind
+	for _, ln := range []int{63, 64, 65, 66, 100, 129, 200} {
+		c02Case(6, make([]int, ln))
+		c02Case(77, make([]int, ln))
+		for _, k := range []int{kGap, kHard, kPastSmall} {
+			ks := make([]int, ln)
+			ks[ln-1] = k
+			c02Case(6, ks)
+			ks2 := make([]int, ln)
+			ks2[ln/2+1] = k
+			c02Case(6, ks2)
+		}
+	}
 	for i := 0; i < n; i++ {
 		ln := 1 + r.intn(40)
+		if r.chance(1, 10) {
+			ln = 60 + r.intn(80)
+		}
 		ks := make([]int, ln)
 		if r.chance(4, 5) {
 			ks[r.intn(ln)] = 1 + r.intn(nKinds-1)
